@@ -179,10 +179,24 @@ class MWFamily : public IAlgoFamily {
         try {
             DGT d(v);
             UGT u(std::deque<E>(v.begin(), v.end()));
+            size_t nn = 0;
+            for (auto &t : seq)
+                nn = std::max<size_t>(nn, 1 + std::max(t[0].get<size_t>(), t[1].get<size_t>()));
+            DGT od(nn);
+            UGT ou(nn);
+            for (auto &e : v) {
+                if constexpr (std::is_same<A, EdgeMultiplicity>::value) {
+                    od.addMultiedge(std::get<0>(e), std::get<1>(e), std::get<2>(e));
+                    ou.addMultiedge(std::get<0>(e), std::get<1>(e), std::get<2>(e));
+                } else {
+                    od.addEdge(std::get<0>(e), std::get<1>(e), std::get<2>(e));
+                    ou.addEdge(std::get<0>(e), std::get<1>(e), std::get<2>(e));
+                }
+            }
             r.records.push_back({{"k", "conv_edgelist"}, {"kind", kind}, {"family", GInfo<DGT>::name()}, {"dir", true},
-                                 {"seq", seq}, {"out", encOf(d)}});
+                                 {"seq", seq}, {"out", encOf(d)}, {"one", encOf(od)}, {"equal_one", (d == od) && !(d != od)}});
             r.records.push_back({{"k", "conv_edgelist"}, {"kind", kind}, {"family", GInfo<UGT>::name()}, {"dir", false},
-                                 {"seq", seq}, {"out", encOf(u)}});
+                                 {"seq", seq}, {"out", encOf(u)}, {"one", encOf(ou)}, {"equal_one", (u == ou) && !(u != ou)}});
         } catch (const std::exception &e) {
             r.fail(std::string("an edge-list constructor threw: ") + e.what());
         }
